@@ -129,6 +129,8 @@ type FnCtx struct {
 	sortWitness [][2]string
 	entryReach string
 	localCells []string // alloc terms of local variables that never escape
+	allocOf    map[string]ssa.Value // alloc term -> Alloc instruction (this pass)
+	cellWrites map[*ssa.BasicBlock]map[ssa.Value]bool // discovery: local cells written per block
 	outerBlock *ssa.BasicBlock // caller block while executing inlined callee bodies
 	inlineStack []*ssa.Function
 	inlineRets []inlineRet
@@ -805,7 +807,22 @@ func isAllocConst(a string) bool {
 	return strings.HasPrefix(a, "alloc!") || strings.HasPrefix(a, "|alloc!")
 }
 
+func (c *FnCtx) noteCellWrite(addr string) {
+	if a, ok := c.allocOf[addr]; ok {
+		b := c.wblk()
+		if c.cellWrites[b] == nil {
+			c.cellWrites[b] = map[ssa.Value]bool{}
+		}
+		c.cellWrites[b][a] = true
+	}
+}
+
 func (c *FnCtx) storeLoc(l location, v string) {
+	if l.cellTy != nil {
+		c.noteCellWrite(l.cellAddr)
+	} else {
+		c.noteCellWrite(l.a1)
+	}
 	if l.cellTy != nil {
 		c.storeCell(l.cellAddr, l.cellTy, v)
 		return
